@@ -28,7 +28,7 @@ type entry struct {
 func main() {
 	run := ev.Start("C01", "exploration")
 	defer run.Finish()
-	run.Rule("unit = one generated history of 20-60 hostile update requests against a fresh real witness (1-3 forking logs, 2-4 branches each, sizes 0..40; or uniform region trees with sizes to 2^40) on mem / sqlite :memory: / sqlite file; after every request the stored checkpoint of every log is read back and the per-log list of cosigned checkpoints is judged on leaves. evaluations = update requests executed; nontrivial = distinct (stored size, submitted size, old-size kind, checkpoint kind, proof kind, outcome) tuples among requests that reached the consistency logic (known log, authentic checkpoint, something stored)")
+	run.Rule("unit = one generated history of 20-60 hostile update requests against a fresh real witness (1-3 forking logs, 2-4 branches each, sizes 0..40; or uniform region trees with sizes to 2^40) on mem / sqlite :memory: / sqlite file, with a storage fault (interface or SQL-driver level: open, read, row fetch, write, commit, close) injected into ~4% of requests; after every request the stored checkpoint of every log is read back and the per-log list of cosigned checkpoints is judged on leaves. evaluations = update requests executed; nontrivial = distinct (stored size, submitted size, old-size kind, checkpoint kind, proof kind, outcome) tuples among requests that reached the consistency logic (known log, authentic checkpoint, something stored)")
 	run.Assume("SHA-256 collision-free, Ed25519 unforgeable", "ground truth = leaf lists of harness trees; RFC 6962 reference implementation in kit/reftree", "a random root at some size is never honestly extended by the generator (phantom clause)")
 	nSmall := run.Pick(4000, 100000)
 	nBig := run.Pick(400, 4000)
@@ -47,7 +47,7 @@ func main() {
 	})
 }
 
-func storeKind(r *rand.Rand) string {
+func storeKindUnused(r *rand.Rand) string {
 	switch x := r.IntN(20); {
 	case x < 10:
 		return "mem"
@@ -58,40 +58,16 @@ func storeKind(r *rand.Rand) string {
 }
 
 func history(run *ev.Run, unit int64, r *rand.Rand, dir string, big bool) {
-	u := gen.NewUniverse(r, gen.Opts{NLogs: 1 + r.IntN(3), MaxSize: 40, Big: big, BigBits: 40, Branches: 2 + r.IntN(3), ShareKeys: true})
-	kind := storeKind(r)
-	st, err := wit.NewStore(kind, dir)
-	if err != nil {
-		run.Inconclusive("store: " + err.Error())
-		return
-	}
-	defer st.Close()
-	run.Count("store_" + kind)
-	schemes := [][]bool{{false}, {true}, {false, true}}[r.IntN(3)]
-	keys, err := wit.NewWitKeys(r, schemes, len(schemes) == 2)
-	if err != nil {
-		run.Inconclusive("keys: " + err.Error())
-		return
-	}
-	rn, err := wit.NewRunner(u, keys, st, nil)
-	if err != nil {
-		run.Inconclusive("witness.New: " + err.Error())
-		return
-	}
+	o := wit.HistOpts{Gen: gen.Opts{NLogs: 1 + r.IntN(3), MaxSize: 40, Big: big, BigBits: 40, Branches: 2 + r.IntN(3), ShareKeys: true},
+		MinSteps: 20, MaxSteps: 60, Dir: dir, FaultProb: 0.04, DriverFaults: true}
 	lists := map[string][]entry{}
-	var trace []string
-	snap := rn.Snap()
-	n := 20 + r.IntN(41)
-	for i := 0; i < n; i++ {
-		l := u.Logs[r.IntN(len(u.Logs))]
-		v := rn.View(l, snap)
-		q := u.Next(r, l, v, rn.Sess[l.Idx])
-		s := rn.Do(q, snap)
-		snap = s.After
+	h, err := wit.RunHistory(r, o, func(h *wit.Hist, s *wit.Step, i int) {
+		u, q, kind, trace := h.Rn.U, s.Req, h.Kind, h.Trace
+		l := q.Log
+		v := wit.ViewOf(l, s.Before)
 		run.Count("evaluations")
-		trace = append(trace, fmt.Sprintf("%d: %s -> err=%v", i, q, s.Err))
-		if len(trace) > 70 {
-			trace = trace[1:]
+		if h.FaultFired != "" {
+			run.Count("requests_with_storage_fault")
 		}
 		// coverage accounting
 		if s.Known && s.Authentic && s.Pre.Has && !s.Ambiguous {
@@ -154,9 +130,15 @@ func history(run *ev.Run, unit int64, r *rand.Rand, dir string, big bool) {
 				lists[lg.ID] = append(lists[lg.ID], e)
 			}
 		}
+	})
+	if err != nil {
+		run.Inconclusive(err.Error())
+		return
 	}
+	defer h.Close()
+	run.Count("store_" + h.Kind)
 	if unit < 3 {
-		run.Sample(map[string]any{"unit": unit, "store": kind, "big": big, "logs": len(u.Logs), "trace_tail": trace[max(0, len(trace)-6):]})
+		run.Sample(map[string]any{"unit": unit, "store": h.Kind, "big": big, "logs": len(h.Rn.U.Logs), "trace_tail": h.Trace[max(0, len(h.Trace)-6):]})
 	}
 }
 
